@@ -110,10 +110,11 @@ type vf38Cfg struct {
 	claims   string // none sensitive nested
 	redactor string // default none panic
 	compress bool
+	chunked  bool // HTTP request bodies without a declared length
 }
 
 func (c vf38Cfg) String() string {
-	return fmt.Sprintf("debug=%v trace=%s claims=%s redactor=%s compress=%v", c.debug, c.trace, c.claims, c.redactor, c.compress)
+	return fmt.Sprintf("debug=%v trace=%s claims=%s redactor=%s compress=%v chunked=%v", c.debug, c.trace, c.claims, c.redactor, c.compress, c.chunked)
 }
 
 func vf38Claims(which string) map[string]any {
@@ -346,7 +347,16 @@ func vf38CheckUnit(x *venum.X, tr string, cfg vf38Cfg, u *vf37Unit, streamIDs ma
 		// wire byte counts over HTTP
 		if tr == "http" {
 			rb, hasRB := vf38Num(obj["request_bytes"])
-			if !hasRB || int(rb) != len(u.ReqBody) {
+			switch {
+			case !hasRB:
+				fail("request_bytes-missing", "HTTP record without request_bytes (body %d bytes, chunked=%v)", len(u.ReqBody), cfg.chunked)
+			case cfg.chunked:
+				// no declared length: the cross-language spec defines 0; the
+				// true count is what the statement literally asks for — accept both
+				if int(rb) != 0 && int(rb) != len(u.ReqBody) {
+					fail("request_bytes-chunked", "request_bytes=%v for a length-less body of %d bytes (want 0 or %d)", obj["request_bytes"], len(u.ReqBody), len(u.ReqBody))
+				}
+			case int(rb) != len(u.ReqBody):
 				fail("request_bytes", "request_bytes=%v, the request body was %d bytes", obj["request_bytes"], len(u.ReqBody))
 			}
 			sb, hasSB := vf38Num(obj["response_bytes"])
@@ -389,7 +399,7 @@ func vf38Run(x *venum.X, hist []*vf37Kind, httpT bool, cfg vf38Cfg) {
 	var buf bytes.Buffer
 	hook := NewAccessLogHook(&buf, "9.9.9")
 	hook.SetDebug(cfg.debug)
-	env := &vf37Env{Hook: hook, Compress: cfg.compress}
+	env := &vf37Env{Hook: hook, Compress: cfg.compress, Chunked: cfg.chunked}
 	if cfg.external {
 		store := vf41NewStore()
 		store.preload()
@@ -458,7 +468,12 @@ func TestVerif_C38(t *testing.T) {
 			if cfg.claims != "none" {
 				cfg.redactor = redactors[x.Choose(len(redactors), "redactor")]
 			}
-			cfg.compress = x.Bool("compress")
+			switch x.Pick("wire", "plain", "compressed", "chunked") {
+			case "compressed":
+				cfg.compress = true
+			case "chunked":
+				cfg.chunked = true
+			}
 		}
 		vf38Run(x, hist, httpT, cfg)
 	})
@@ -474,6 +489,7 @@ func TestVerif_C38(t *testing.T) {
 		cfg.debug = x.Bool("debug")
 		if httpT {
 			cfg.compress = x.Bool("compress")
+			cfg.chunked = x.Bool("chunked")
 		}
 		vf38Run(x, hist, httpT, cfg)
 	})
@@ -486,6 +502,7 @@ func TestVerif_C38(t *testing.T) {
 		cfg.debug = x.Bool("debug")
 		if httpT {
 			cfg.claims, cfg.compress = "sensitive", true
+			cfg.chunked = x.Bool("chunked")
 		}
 		vf38Run(x, hist, httpT, cfg)
 	})
